@@ -582,7 +582,7 @@ func ruleXZWriter(c *Ctx, r *Report, prefix string) {
 				}
 				if st, ok := storeToField(ins, fIndex); ok {
 					if ap, ok := st.Val.(*ssa.Call); ok {
-						if bi, ok := ap.Call.Value.(*ssa.Builtin); ok && bi.Name() == "append" && appendOfCall(ap.Call.Args[1], bwRecord) {
+						if bi, ok := ap.Call.Value.(*ssa.Builtin); ok && bi.Name() == "append" && (appendOfCall(ap.Call.Args[1], bwRecord) || bwRecord == cbw && appendOfType(ap.Call.Args[1], "record")) {
 							return "index+=record"
 						}
 					}
@@ -637,4 +637,29 @@ func localAddr(a ssa.Value) bool {
 			return false
 		}
 	}
+}
+
+// appendOfType: the variadic argument of append is a one-element slice holding a value of
+// the named struct type (a record literal: blockWriter.record inlined into its caller).
+func appendOfType(v ssa.Value, typeName string) bool {
+	sl, ok := v.(*ssa.Slice)
+	if !ok {
+		return false
+	}
+	al, ok := sl.X.(*ssa.Alloc)
+	if !ok || al.Referrers() == nil {
+		return false
+	}
+	for _, ref := range *al.Referrers() {
+		if ia, ok := ref.(*ssa.IndexAddr); ok && ia.Referrers() != nil {
+			for _, r2 := range *ia.Referrers() {
+				if st, ok := r2.(*ssa.Store); ok {
+					if n, isN := st.Val.Type().(*types.Named); isN && n.Obj().Name() == typeName {
+						return true
+					}
+				}
+			}
+		}
+	}
+	return false
 }
